@@ -66,9 +66,9 @@ type H2 struct {
 	h    *hit
 }
 
-func (x *H2) M() (string, error)     { x.h.inc(x.inst + "/M"); return x.inst + "/M", nil }
-func (x *H2) Same() (string, error)  { x.h.inc(x.inst + "/Same"); return x.inst + "/Same", nil }
-func (x *H2) Other() (string, error) { x.h.inc(x.inst + "/Other"); return x.inst + "/Other", nil }
+func (x *H2) M() (string, error)      { x.h.inc(x.inst + "/M"); return x.inst + "/M", nil }
+func (x *H2) Same() (string, error)   { x.h.inc(x.inst + "/Same"); return x.inst + "/Same", nil }
+func (x *H2) Other() (string, error)  { x.h.inc(x.inst + "/Other"); return x.inst + "/Other", nil }
 func (x *H2) LowerX() (string, error) { x.h.inc(x.inst + "/LowerX"); return x.inst + "/LowerX", nil }
 
 type reg struct {
@@ -91,10 +91,16 @@ func (c12) Plan(tier string, seed int64) []core.Scenario {
 	for f := 0; f < len(c01Formatters); f++ {
 		for a := 0; a < len(c12AliasTables); a++ {
 			out = append(out, core.Sc("names").WithN("fmt", f).WithN("alias", a))
+			if a < 2 {
+				out = append(out, core.Sc("dynamic").WithN("fmt", f).WithN("alias", a))
+			}
 		}
 		for _, tr := range []string{"http", "ws"} {
 			out = append(out, core.Sc("clients").WithN("fmt", f).WithS("transport", tr))
 		}
+	}
+	for i := 0; i < 3; i++ {
+		out = append(out, core.Sc("revalias").WithN("m", 2+i).WithN("rot", i))
 	}
 	ct, _ := catClientType()
 	per := 6
@@ -116,6 +122,10 @@ func (p c12) Run(sc core.Scenario) core.Result {
 		p.clients(sc, r)
 	case "params":
 		p.params(sc, r)
+	case "dynamic":
+		p.dynamic(sc, r)
+	case "revalias": // client-side (reverse) handlers resolve aliases through their own table only
+		c16{}.aliasIsolation(sc, r)
 	}
 	return r.Result()
 }
@@ -202,43 +212,94 @@ func (c12) names(sc core.Scenario, r *core.R) {
 	}
 	sort.Strings(names)
 	for _, s := range names {
-		before := h.snap()
-		code, result, raw := rawCall(rpc, s, "[]")
-		ran := diff(before, h.snap())
-		r.Obs("requests", 1)
 		r.AddKey(fmt.Sprintf("%s|a%d|%q", fm.name, sc.I("alias"), s))
-		label := fmt.Sprintf("formatter=%s aliases=%v request method %q", fm.name, aliases, s)
-		var acceptable []string
-		mayNotFound := false
-		if direct, ok := table[s]; ok {
-			acceptable = direct
-		} else if tgt, ok := aliases[s]; ok {
-			if d2, ok := table[tgt]; ok {
-				acceptable = d2
-			} else if t2, ok := aliases[tgt]; ok {
-				// alias -> alias: not-found or the final target
-				mayNotFound = true
-				acceptable = table[t2]
-			}
-		}
-		if len(acceptable) == 0 || (mayNotFound && len(ran) == 0) {
-			if len(ran) != 0 {
-				r.Violate("ran-unregistered-name", "%s: no handler is registered or aliased under that name, yet %v ran (reply %s)", label, ran, core.Trunc(raw, 120))
-			} else if code != -32601 {
-				r.Violate("not-found-code", "%s: expected method-not-found (-32601), got code %d (reply %s)", label, code, core.Trunc(raw, 120))
-			}
-			continue
-		}
-		if len(ran) != 1 || !contains(acceptable, ran[0]) {
-			r.Violate("wrong-handler", "%s: expected exactly one of %v to run, ran %v (code %d)", label, acceptable, ran, code)
-			continue
-		}
-		if code != 0 || result != ran[0] {
-			r.Violate("wrong-handler", "%s: handler %s ran but the reply is code %d result %q", label, ran[0], code, result)
-		}
+		c12Judge(r, rpc, h, table, aliases, s, fmt.Sprintf("formatter=%s aliases=%v request method %q", fm.name, aliases, s))
 	}
 	r.Key(fmt.Sprintf("names %s aliases#%d", fm.name, sc.I("alias")), true)
 	r.Sample(map[string]interface{}{"formatter": fm.name, "aliases": aliases, "candidates": len(names)})
+}
+
+// c12Judge sends one request for method name s and compares what ran with the reference table.
+func c12Judge(r *core.R, rpc *jsonrpc.RPCServer, h *hit, table map[string][]string, aliases map[string]string, s string, label string) {
+	before := h.snap()
+	code, result, raw := rawCall(rpc, s, "[]")
+	ran := diff(before, h.snap())
+	r.Obs("requests", 1)
+	var acceptable []string
+	mayNotFound := false
+	if direct, ok := table[s]; ok {
+		acceptable = direct
+	} else if tgt, ok := aliases[s]; ok {
+		if d2, ok := table[tgt]; ok {
+			acceptable = d2
+		} else if t2, ok := aliases[tgt]; ok {
+			// alias -> alias: not-found or the final target
+			mayNotFound = true
+			acceptable = table[t2]
+		}
+	}
+	if len(acceptable) == 0 || (mayNotFound && len(ran) == 0) {
+		if len(ran) != 0 {
+			r.Violate("ran-unregistered-name", "%s: no handler is registered or aliased under that name, yet %v ran (reply %s)", label, ran, core.Trunc(raw, 120))
+		} else if code != -32601 {
+			r.Violate("not-found-code", "%s: expected method-not-found (-32601), got code %d (reply %s)", label, code, core.Trunc(raw, 120))
+		}
+		return
+	}
+	if len(ran) != 1 || !contains(acceptable, ran[0]) {
+		r.Violate("wrong-handler", "%s: expected exactly one of %v to run, ran %v (code %d)", label, acceptable, ran, code)
+		return
+	}
+	if code != 0 || result != ran[0] {
+		r.Violate("wrong-handler", "%s: handler %s ran but the reply is code %d result %q", label, ran[0], code, result)
+	}
+}
+
+// dynamic: the dispatch table changes while the server is already serving - aliases added,
+// re-pointed (to another handler, to a missing target) and a namespace registered late.
+// After every step all interesting names are requested again.
+func (c12) dynamic(sc core.Scenario, r *core.R) {
+	fm := c01Formatters[sc.I("fmt")]
+	aliases := map[string]string{}
+	for k, v := range c12AliasTables[sc.I("alias")] {
+		aliases[k] = v
+	}
+	rpc, h, table := c12Server(fm.f, aliases)
+	probe := func(step string) {
+		names := []string{"Late.X", "Late.Y", "short", "Al.One", fm.f("A", "M"), fm.f("B", "Other"), fm.f("C", "M"), fm.f("C", "N"), "Nope"}
+		for k := range aliases {
+			names = append(names, k)
+		}
+		sort.Strings(names)
+		for _, s := range names {
+			r.AddKey(fmt.Sprintf("dyn|%s|a%d|%s|%q", fm.name, sc.I("alias"), step, s))
+			c12Judge(r, rpc, h, table, aliases, s, fmt.Sprintf("formatter=%s after step %q (aliases now %v) request method %q", fm.name, step, aliases, s))
+		}
+	}
+	probe("initial") // the server has answered requests before anything changes
+	steps := []struct {
+		name string
+		do   func()
+	}{
+		{"alias Late.X -> A.M added", func() { rpc.AliasMethod("Late.X", fm.f("A", "M")); aliases["Late.X"] = fm.f("A", "M") }},
+		{"alias Late.X re-pointed to B.Other", func() { rpc.AliasMethod("Late.X", fm.f("B", "Other")); aliases["Late.X"] = fm.f("B", "Other") }},
+		{"alias Late.Y -> C.N added before C exists", func() { rpc.AliasMethod("Late.Y", fm.f("C", "N")); aliases["Late.Y"] = fm.f("C", "N") }},
+		{"namespace C registered", func() {
+			rpc.Register("C", &H1{"c", h})
+			for _, m := range []string{"M", "N", "Same"} {
+				n := fm.f("C", m)
+				table[n] = append(table[n], "c/"+m)
+			}
+		}},
+		{"alias Late.X re-pointed to a missing target", func() { rpc.AliasMethod("Late.X", "No.Such"); aliases["Late.X"] = "No.Such" }},
+		{"alias short re-pointed to C.M", func() { rpc.AliasMethod("short", fm.f("C", "M")); aliases["short"] = fm.f("C", "M") }},
+	}
+	for _, st := range steps {
+		st.do()
+		probe(st.name)
+	}
+	r.Key(fmt.Sprintf("dynamic %s aliases#%d", fm.name, sc.I("alias")), true)
+	r.Sample(map[string]interface{}{"formatter": fm.name, "scenario": "dispatch table changed while serving", "steps": len(steps)})
 }
 
 func contains(l []string, s string) bool {
